@@ -13,6 +13,7 @@ import (
 	"sync"
 	"sync/atomic"
 	"testing"
+	"time"
 
 	goat "github.com/avos-io/goat"
 	"github.com/avos-io/goat/internal/verifhook"
@@ -146,6 +147,68 @@ func TestC05Perm(t *testing.T) {
 		}
 		rec(0, nil)
 	}
+	// bursts: a stream's responses pile up unread (queue full, read loop holding the next one) before its caller
+	// starts receiving: per-call order must survive the back-pressure
+	nb := 90
+	if thorough() {
+		nb = 1500
+	}
+	for i := 0; i < nb; i++ {
+		kinds := [][]bool{{true}, {true, false}, {true, true}}[i%3]
+		var base []*EnvSpec
+		for c := range kinds {
+			n := 1 + r.Intn(2)
+			if c == 0 {
+				n = 4 + r.Intn(3)
+			}
+			for j := 0; j < n; j++ {
+				base = append(base, &EnvSpec{Call: c, Hdr: "ok:0", Body: i64(int64(1000*(c+1) + j)), Trl: "none"})
+			}
+		}
+		if i%2 == 0 { // keep the per-call order of the burst (what a FIFO wire delivers), interleave the calls
+			sort.SliceStable(base, func(a, b int) bool { return false })
+			perm := r.Perm(len(base))
+			pos := map[int][]int{}
+			for _, p := range perm {
+				pos[base[p].Call] = append(pos[base[p].Call], p)
+			}
+			out := make([]*EnvSpec, 0, len(base))
+			next := map[int]int{}
+			for _, p := range perm {
+				c := base[p].Call
+				q := pos[c]
+				sort.Ints(q)
+				out = append(out, base[q[next[c]]])
+				next[c]++
+			}
+			base = out
+		} else {
+			r.Shuffle(len(base), func(a, b int) { base[a], base[b] = base[b], base[a] })
+		}
+		var acts []CAct
+		for c, st := range kinds {
+			if st {
+				acts = append(acts, CAct{Op: "stream"})
+			} else {
+				acts = append(acts, CAct{Op: "unary", B: int64(10 + c)})
+			}
+		}
+		for _, e := range base {
+			acts = append(acts, CAct{Op: "deliver", Env: e})
+		}
+		for k := 0; k < 8; k++ {
+			for c, st := range kinds {
+				if st {
+					acts = append(acts, CAct{Op: "recv", C: c})
+				}
+			}
+		}
+		sc := clientScenario{Acts: acts, Tags: []string{"kinds=" + kindName(kinds), fmt.Sprintf("envelopes=%d", len(base)), "burst-unread"}}
+		if want(idx) && idx%nsh == shard {
+			runClientScenarioAs(t, idx, "c05-perm", sc, em, "C05Step", nil)
+		}
+		idx++
+	}
 	// k = 3: sampled
 	samples := 150
 	if thorough() {
@@ -243,9 +306,12 @@ func TestC05Free(t *testing.T) {
 			ns := 0
 			for i := 0; i < total/G; i++ {
 				tok := int64(g*1000000 + i*3 + 1)
+				// not an oracle: only keeps a caller whose reply went to somebody else from blocking the rig for ever
+				cctx, ccancel := context.WithTimeout(context.Background(), 10*time.Second)
+				_ = ccancel
 				if i%10 == 9 {
 					ns++
-					cs, err := cc.NewStream(context.Background(), descBidi, "/verif.Echo/Bidi")
+					cs, err := cc.NewStream(cctx, descBidi, "/verif.Echo/Bidi")
 					if err != nil {
 						mine = append(mine, fmt.Sprintf("(%d, -1)", tok))
 						continue
@@ -262,10 +328,12 @@ func TestC05Free(t *testing.T) {
 					cs.CloseSend()
 					var m wrapperspb.BytesValue
 					cs.RecvMsg(&m)
+					ccancel()
 					continue
 				}
 				var out wrapperspb.BytesValue
-				err := cc.Invoke(context.Background(), "/verif.Echo/Unary", &wrapperspb.BytesValue{Value: payloadOf(tok)}, &out)
+				err := cc.Invoke(cctx, "/verif.Echo/Unary", &wrapperspb.BytesValue{Value: payloadOf(tok)}, &out)
+				ccancel()
 				if err != nil {
 					mine = append(mine, fmt.Sprintf("(%d, -3)", tok))
 				} else {
